@@ -142,7 +142,7 @@ int main(int argc, char **argv)
         emitApp("appCreate");
     }
 
-    const bool local = path == "dtorlive";
+    const bool local = path == "dtorlive" || path == "dtorquit" || path == "dtorspin";
     std::unique_ptr<Logger> localLogger;
     Logger *lg = nullptr;
     if (local) {
@@ -156,7 +156,9 @@ int main(int argc, char **argv)
 
     if (app) {
         // runs before the library's own aboutToQuit connection (made in moveToOwnThread)
-        QObject::connect(app.get(), &QCoreApplication::aboutToQuit, [lg] {
+        QObject::connect(app.get(), &QCoreApplication::aboutToQuit, [lg, &localLogger, local] {
+            if (local && !localLogger)
+                return;                                      // the logger is gone already
             if (lg->ownThread())
                 emitOp("reset", "begin");
         });
@@ -205,11 +207,45 @@ int main(int argc, char **argv)
         emitOp("reset", "begin");
         lg->resetOwnThread();
         emitOp("reset", "end");
-    } else if (path == "dtorlive") {
+    } else if (local) {
         emitOp("reset", "begin");
         Logger::restorePreviousMessageHandler();
         localLogger.reset();
         emitOp("reset", "end");
+        emitApp("free");
+        if (path == "dtorspin") {
+            // the event loop gets a chance to delete the stopped thread object
+            QCoreApplication::processEvents();
+            QCoreApplication::sendPostedEvents(nullptr, QEvent::DeferredDelete);
+            emitApp("spin");
+        }
+        if (path != "dtorlive") {
+            // (dtorquit: the application quits before the event loop has deleted the stopped thread object)
+            emitApp("execQuit");
+            QTimer::singleShot(0, app.get(), &QCoreApplication::quit);
+            app->exec();
+        }
+    } else if (path == "cyclequit") {
+        emitOp("reset", "begin");
+        lg->resetOwnThread();
+        emitOp("reset", "end");
+        emitOp("move", "begin");
+        lg->moveToOwnThread();
+        emitOp("move", "end");
+        // the library's hook of the second thread object is connected now, so the "end" marker must follow it
+        bool secondOpen = false;
+        QObject::connect(app.get(), &QCoreApplication::aboutToQuit, [&secondOpen] {
+            if (secondOpen)
+                emitOp("reset", "end");
+        });
+        produce(nprod + 2, nmsg, 1);
+        g_total += nmsg;
+        t_tag = "M";
+        emitApp("execQuit");
+        secondOpen = true;
+        QTimer::singleShot(0, app.get(), &QCoreApplication::quit);
+        app->exec();
+        secondOpen = false;
     }
     if (lateThread.joinable())
         lateThread.join();
